@@ -11,12 +11,25 @@ static void pXf(const Transform& X) {
     for (int i = 0; i < 3; ++i) for (int j = 0; j < 3; ++j) std::printf(" %a", X.R().asMat33()(i, j));
     std::printf(" %a %a %a", X.p()[0], X.p()[1], X.p()[2]);
 }
+// childless Translation mobilizers on Ground with identity frames and the mass centre at the body origin: simbody's
+// RBNodeLoneParticle (RigidBodyNode_LoneParticle.cpp), which the general generator of mb_common.h never produces
+static void buildLone(RandSystem& rs, Rng& r, int nb) {
+    rs.euler = r.I(0, 1) == 1;
+    for (int i = 0; i < nb; ++i) {
+        Real m = r.U(0.2, 2);
+        Body::Rigid body(MassProperties(m, Vec3(0), m * UnitInertia::sphere(r.U(0.1, 0.5))));
+        MobilizedBody::Translation(rs.matter.updGround(), Transform(), body, Transform());
+        rs.types.push_back(10); rs.revs.push_back(false);
+    }
+    rs.state = rs.sys.realizeTopology(); rs.matter.setUseEulerAngles(rs.state, rs.euler); rs.sys.realizeModel(rs.state);
+    for (int i = 0; i < rs.state.getNU(); ++i) rs.state.updU()[i] = r.U(-1, 1);
+}
 int main(int argc, char** argv) {
     unsigned long long seed = std::strtoull(argv[1], 0, 10); int nsys = std::atoi(argv[2]); int maxb = argc > 3 ? std::atoi(argv[3]) : 8;
     Rng r(seed);
     for (int k = 0; k < nsys; ++k) {
         RandSystem rs; int nb = r.I(1, maxb); int shape = r.I(0, 2);
-        try { rs.build(r, nb, shape); } catch (const std::exception& e) { std::printf("SKIP %s\n", e.what()); continue; }
+        try { if (k % 10 == 9) buildLone(rs, r, nb); else rs.build(r, nb, shape); } catch (const std::exception& e) { std::printf("SKIP %s\n", e.what()); continue; }
         State& s = rs.state; const SimbodyMatterSubsystem& m = rs.matter;
         // wider coordinates than the default generator: angles in +-[0.1,1.2] (|cos q1| > 0.36), then renormalise quaternions
         for (int i = 0; i < s.getNQ(); ++i) s.updQ()[i] = r.U(0.1, 1.2) * (r.I(0, 1) ? 1 : -1);
